@@ -10,8 +10,11 @@ from .build import AnalysisBroken
 def rule_index_guards(prog, res, fnames, extra_bounds=None, rule="R-INDEX"):
     extra_bounds = extra_bounds or {}
     n = 0
+    fnames = list(fnames)
+    followed = set()
     for fname in fnames:
         f = prog.func(fname)
+        n_before = n
         res.touched(f)
         sites = {}
 
@@ -49,4 +52,12 @@ def rule_index_guards(prog, res, fnames, extra_bounds=None, rule="R-INDEX"):
             else:
                 res.fail(rule, inst, "%s|%s|%s" % (rule, fname, key), f.loc(),
                          "%s can index %s (%d elements) with %s without having established 0 <= %s < %d: an out-of-range value reads past the table" % (fname, key, length, itext, itext, length))
+        if n == n_before and fname not in followed:
+            # no table here: the table may have moved into a helper of the same file
+            followed.add(fname)
+            for gn in prog.direct_callees(f):
+                g = prog.resolve(gn, f) if isinstance(gn, str) else gn
+                if g is not None and g.blocks and g.file == f.file and g.name not in fnames:
+                    fnames.append(g.name)
+                    followed.add(g.name)
     return n
